@@ -1,6 +1,351 @@
-//! C16: implementation-side case runners (see props/c16.py). Stub until the property is built.
+//! C16: palette index laws, 6-bit VGA codec, palette file export/import through the public API
+//! (`Palette`, `Color`, `PaletteFormat`, `from_ega_data`, `to_ega_data`).  See props/c16.py.
+//!
+//! Kinds (all prefixed `pal_`):
+//!   pal_ops    <init rgb hex> <op>*          state-by-state observation of an operation sequence
+//!   pal_oracle <init rgb hex> <op>*          the property's own oracle on the same sequence
+//!   pal_exp    <fmt> <title> <author> <desc> <rgb hex> <idx,name>*   export bytes + colours loaded back
+//!   pal_load   <fmt> <bytes hex>             load_palette on arbitrary bytes
+//!   pal_63 / pal_v63 / pal_egaf / pal_egat   6-bit codec entry points
+//!   pal_sweep63 <0|1>                        channel sweeps / all 64^3 six-bit colours
+//! Op tokens: i,RRGGBB  n,RRGGBB,<name hex>  s,idx,RRGGBB  c,idx,RRGGBB,<name hex|~>  l,idx  p,RRGGBB  f  z,n  x
+use crate::util::unhex;
 use crate::Obs;
+use icy_engine::{from_ega_data, to_ega_data, Color, Palette, PaletteFormat};
 
-pub fn run(_kind: &str, _args: &[&str]) -> Option<Obs> {
-    None
+fn rgb_of(s: &str) -> (u8, u8, u8) {
+    let b = unhex(s);
+    (b[0], b[1], b[2])
+}
+
+fn utf8(s: &str) -> String {
+    String::from_utf8(unhex(s)).unwrap()
+}
+
+fn pack(c: (u8, u8, u8)) -> i64 {
+    ((c.0 as i64) << 16) | ((c.1 as i64) << 8) | c.2 as i64
+}
+
+fn digest(p: &Palette) -> i64 {
+    let mut h: u64 = 0;
+    for c in p.color_iter() {
+        let (r, g, b) = c.get_rgb();
+        h = ((h << 5) + h + pack((r, g, b)) as u64 + 1) & 0xFFFF_FFFF;
+    }
+    h as i64
+}
+
+fn dump(p: &Palette, out: &mut Vec<i64>) {
+    out.push(p.len() as i64);
+    for c in p.color_iter() {
+        let (r, g, b) = c.get_rgb();
+        out.push(r as i64);
+        out.push(g as i64);
+        out.push(b as i64);
+        match &c.name {
+            None => out.push(-1),
+            Some(n) => {
+                out.push(n.chars().count() as i64);
+                for ch in n.chars() {
+                    out.push(ch as i64);
+                }
+            }
+        }
+    }
+}
+
+fn named(rgb: (u8, u8, u8), name: Option<String>) -> Color {
+    let mut c = Color::new(rgb.0, rgb.1, rgb.2);
+    c.name = name;
+    c
+}
+
+fn fmt_of(s: &str) -> PaletteFormat {
+    match s {
+        "hex" => PaletteFormat::Hex,
+        "pal" => PaletteFormat::Pal,
+        "gpl" => PaletteFormat::Gpl,
+        "ice" => PaletteFormat::Ice,
+        "txt" => PaletteFormat::Txt,
+        _ => panic!("unknown palette format {s}"),
+    }
+}
+
+/// applies one op; returns (ret1, ret2)
+fn apply(p: &mut Palette, op: &str) -> (i64, i64) {
+    let f: Vec<&str> = op.split(',').collect();
+    match f[0] {
+        "i" => {
+            let (r, g, b) = rgb_of(f[1]);
+            (p.insert_color_rgb(r, g, b) as i64, 0)
+        }
+        "n" => (p.insert_color(named(rgb_of(f[1]), Some(utf8(f[2])))) as i64, 0),
+        "s" => {
+            let (r, g, b) = rgb_of(f[2]);
+            p.set_color_rgb(f[1].parse().unwrap(), r, g, b);
+            (0, 0)
+        }
+        "c" => {
+            let name = if f[3] == "~" { None } else { Some(utf8(f[3])) };
+            p.set_color(f[1].parse().unwrap(), named(rgb_of(f[2]), name));
+            (0, 0)
+        }
+        "l" => {
+            let i: u32 = f[1].parse().unwrap();
+            (pack(p.get_rgb(i)), pack(p.get_color(i).get_rgb()))
+        }
+        "p" => {
+            let (r, g, b) = rgb_of(f[1]);
+            p.push(Color::new(r, g, b));
+            (0, 0)
+        }
+        "f" => {
+            p.fill_to_16();
+            (0, 0)
+        }
+        "z" => {
+            p.resize(f[1].parse().unwrap());
+            (0, 0)
+        }
+        "x" => {
+            p.clear();
+            (0, 0)
+        }
+        _ => panic!("unknown op {op}"),
+    }
+}
+
+fn snapshot(p: &Palette) -> Vec<(u8, u8, u8)> {
+    (0..p.len() as u32).map(|i| p.get_rgb(i)).collect()
+}
+
+/// The property itself, checked on the real `Palette` while the sequence runs.
+/// Returns [0] or [code, op index, index, got, want].
+fn oracle(init: &[u8], ops: &[&str]) -> Vec<i64> {
+    let mut p = Palette::from(init);
+    // expected resolution of every index that is valid right now
+    let mut want: Vec<(u8, u8, u8)> = snapshot(&p);
+    for (k, chunk) in init.chunks(3).enumerate() {
+        if want[k] != (chunk[0], chunk[1], chunk[2]) {
+            return vec![9, -1, k as i64, pack(want[k]), pack((chunk[0], chunk[1], chunk[2]))];
+        }
+    }
+    for (k, op) in ops.iter().enumerate() {
+        let f: Vec<&str> = op.split(',').collect();
+        let before = want.clone();
+        let (ret, ret2) = apply(&mut p, op);
+        let after = snapshot(&p);
+        let k = k as i64;
+        match f[0] {
+            "i" | "n" => {
+                let c = rgb_of(f[1]);
+                let idx = ret as usize;
+                // the returned index resolves to exactly that colour
+                if p.get_rgb(ret as u32) != c {
+                    return vec![1, k, ret, pack(p.get_rgb(ret as u32)), pack(c)];
+                }
+                // every previously valid index resolves to its previous value
+                for (j, w) in before.iter().enumerate() {
+                    if j >= after.len() || after[j] != *w {
+                        return vec![2, k, j as i64, if j < after.len() { pack(after[j]) } else { -1 }, pack(*w)];
+                    }
+                }
+                // a colour that was present keeps its existing (first) index and nothing is appended
+                match before.iter().position(|x| *x == c) {
+                    Some(first) => {
+                        if idx != first || after.len() != before.len() {
+                            return vec![3, k, ret, first as i64, after.len() as i64];
+                        }
+                    }
+                    None => {
+                        if idx != before.len() || after.len() != before.len() + 1 {
+                            return vec![4, k, ret, before.len() as i64, after.len() as i64];
+                        }
+                    }
+                }
+                want = after;
+            }
+            "s" | "c" => {
+                let i: usize = f[1].parse().unwrap();
+                let c = rgb_of(f[2]);
+                if i >= after.len() || after[i] != c {
+                    return vec![5, k, i as i64, if i < after.len() { pack(after[i]) } else { -1 }, pack(c)];
+                }
+                for (j, w) in before.iter().enumerate() {
+                    if j != i && (j >= after.len() || after[j] != *w) {
+                        return vec![6, k, j as i64, if j < after.len() { pack(after[j]) } else { -1 }, pack(*w)];
+                    }
+                }
+                want = after;
+            }
+            "l" => {
+                let i: u32 = f[1].parse().unwrap();
+                let w = if i & (1 << 31) != 0 {
+                    ((i >> 16) as u8, (i >> 8) as u8, i as u8)
+                } else if (i as usize) < before.len() {
+                    before[i as usize]
+                } else {
+                    (0, 0, 0)
+                };
+                if ret != pack(w) || ret2 != pack(w) {
+                    return vec![7, k, i as i64, ret, pack(w)];
+                }
+                if after != before {
+                    return vec![8, k, 0, 0, 0];
+                }
+            }
+            "p" | "f" => {
+                for (j, w) in before.iter().enumerate() {
+                    if j >= after.len() || after[j] != *w {
+                        return vec![2, k, j as i64, if j < after.len() { pack(after[j]) } else { -1 }, pack(*w)];
+                    }
+                }
+                want = after;
+            }
+            _ => {
+                // resize / clear: indices below the new length keep their value
+                for (j, w) in before.iter().enumerate() {
+                    if j < after.len() && after[j] != *w {
+                        return vec![2, k, j as i64, pack(after[j]), pack(*w)];
+                    }
+                }
+                want = after;
+            }
+        }
+    }
+    vec![0]
+}
+
+fn build(args: &[&str]) -> Palette {
+    let mut p = Palette::new();
+    p.title = utf8(args[0]);
+    p.author = utf8(args[1]);
+    p.description = utf8(args[2]);
+    let b = unhex(args[3]);
+    let mut cols: Vec<Color> = b.chunks(3).map(|c| Color::new(c[0], c[1], c[2])).collect();
+    for t in &args[4..] {
+        let f: Vec<&str> = t.split(',').collect();
+        let i: usize = f[0].parse().unwrap();
+        cols[i].name = Some(utf8(f[1]));
+    }
+    for c in cols {
+        p.push(c);
+    }
+    p
+}
+
+fn load_obs(fmt: &PaletteFormat, bytes: &[u8], out: &mut Vec<i64>) {
+    match Palette::load_palette(fmt, bytes) {
+        Err(_) => out.push(1),
+        Ok(q) => {
+            out.push(0);
+            out.push(q.len() as i64);
+            for c in q.color_iter() {
+                let (r, g, b) = c.get_rgb();
+                out.push(r as i64);
+                out.push(g as i64);
+                out.push(b as i64);
+            }
+        }
+    }
+}
+
+pub fn run(kind: &str, args: &[&str]) -> Option<Obs> {
+    Some(match kind {
+        "pal_ops" => {
+            let mut p = Palette::from(&unhex(args[0]));
+            let mut out = Vec::new();
+            for op in &args[1..] {
+                let (a, b) = apply(&mut p, op);
+                out.push(a);
+                out.push(b);
+                out.push(p.len() as i64);
+                out.push(digest(&p));
+            }
+            dump(&p, &mut out);
+            Ok(out)
+        }
+        "pal_oracle" => Ok(oracle(&unhex(args[0]), &args[1..])),
+        "pal_exp" => {
+            let fmt = fmt_of(args[0]);
+            let p = build(&args[1..]);
+            let bytes = p.export_palette(&fmt);
+            let mut out = vec![bytes.len() as i64];
+            out.extend(bytes.iter().map(|b| *b as i64));
+            load_obs(&fmt, &bytes, &mut out);
+            Ok(out)
+        }
+        "pal_load" => {
+            let mut out = Vec::new();
+            load_obs(&fmt_of(args[0]), &unhex(args[1]), &mut out);
+            Ok(out)
+        }
+        "pal_63" => {
+            let p = Palette::from_63(&unhex(args[0]));
+            let mut out = Vec::new();
+            dump(&p, &mut out);
+            let v = p.as_vec_63();
+            out.push(v.len() as i64);
+            out.extend(v.iter().map(|b| *b as i64));
+            Ok(out)
+        }
+        "pal_v63" => Ok(Palette::from(&unhex(args[0])).as_vec_63().iter().map(|b| *b as i64).collect()),
+        "pal_egaf" => {
+            let p = from_ega_data(&unhex(args[0]));
+            let mut out = Vec::new();
+            dump(&p, &mut out);
+            Ok(out)
+        }
+        "pal_egat" => Ok(to_ega_data(&Palette::from(&unhex(args[0]))).iter().map(|b| *b as i64).collect()),
+        "pal_sweep63" => {
+            let mut bad = 0i64;
+            let mut first = -1i64;
+            let mut note = |v: i64| {
+                bad += 1;
+                if first < 0 {
+                    first = v;
+                }
+            };
+            if args[0] == "0" {
+                // per channel: reduce(expand(reduce b)) == reduce b for every byte, reduce(expand c) == c for c < 64
+                for ch in 0..3usize {
+                    for b in 0..=255u8 {
+                        let mut col = [0u8; 3];
+                        col[ch] = b;
+                        let six = Palette::from(&col).as_vec_63();
+                        let again = Palette::from_63(&six).as_vec_63();
+                        if again != six {
+                            note(((ch as i64) << 8) | b as i64);
+                        }
+                        if b < 64 {
+                            let back = Palette::from_63(&col).as_vec_63();
+                            if back != col.to_vec() {
+                                note((1 << 16) | ((ch as i64) << 8) | b as i64);
+                            }
+                        }
+                    }
+                }
+                // EGA variant: to(from(to p)) == to p on a palette made of all byte values
+                let all: Vec<u8> = (0..48u32).map(|i| (i * 37 % 256) as u8).collect();
+                let t1 = to_ega_data(&Palette::from(&all));
+                let t2 = to_ega_data(&from_ega_data(&t1));
+                if t1 != t2 {
+                    note(2 << 16);
+                }
+            } else {
+                for r in 0..64u8 {
+                    for g in 0..64u8 {
+                        for b in 0..64u8 {
+                            let six = [r, g, b];
+                            if Palette::from_63(&six).as_vec_63() != six.to_vec() {
+                                note(((r as i64) << 16) | ((g as i64) << 8) | b as i64);
+                            }
+                        }
+                    }
+                }
+            }
+            Ok(vec![bad, first])
+        }
+        _ => return None,
+    })
 }
